@@ -2328,6 +2328,76 @@ package apd
 //@   props C16 C04
 //@   requires rep(z)
 //@   pure
+// ---------------------------------------------------------------- encoders, fmt.Formatter, Rand, SetBits: thin wrappers (C16: the wrapper, not math/big's text or random stream)
+//@ func math/big.(*Int).GobEncode
+//@   trusted math/big (a nil receiver encodes as nil, nil)
+//@   nilable x
+//@   pure
+//@   allocates
+//@ func math/big.(*Int).MarshalText
+//@   trusted math/big (a nil receiver gives "<nil>")
+//@   nilable x
+//@   pure
+//@   allocates
+//@ func math/big.(*Int).MarshalJSON
+//@   trusted math/big (a nil receiver gives "null")
+//@   nilable x
+//@   pure
+//@   allocates
+//@ func math/big.(*Int).Format
+//@   trusted math/big (writes to the fmt.State only; a nil receiver prints "<nil>")
+//@   nilable x
+//@   pure
+//@ func math/big.(*Int).Rand
+//@   trusted math/big (n <= 0 gives 0; z and n may share their words: nat.random detects the alias)
+//@   requires rnd != nil
+//@   assigns *z
+//@   ensures ret == z && !negzero(z) && val(z) >= 0 && (old(val(n)) > 0 ==> val(z) < old(val(n))) && (old(val(n)) <= 0 ==> val(z) == 0)
+//@ func math/big.(*Int).SetBits
+//@   trusted math/big (adopts the caller's words, normalised; the sign is cleared)
+//@   assigns *z
+//@   ensures ret == z && !negzero(z) && val(z) >= 0
+//@ func (*BigInt).GobEncode
+//@   layer bigint
+//@   props C16 C04
+//@   nilable z
+//@   requires z != nil ==> rep(z)
+//@   pure
+//@   allocates
+//@ func (*BigInt).MarshalText
+//@   layer bigint
+//@   props C16 C04
+//@   nilable z
+//@   requires z != nil ==> rep(z)
+//@   pure
+//@   allocates
+//@ func (*BigInt).MarshalJSON
+//@   layer bigint
+//@   props C16 C04
+//@   nilable z
+//@   requires z != nil ==> rep(z)
+//@   pure
+//@   allocates
+//@ func (*BigInt).Format
+//@   layer bigint
+//@   props C16 C04
+//@   nilable z
+//@   requires z != nil ==> rep(z)
+//@   pure
+//@ func (*BigInt).Rand
+//@   layer bigint
+//@   props C16 C04 C05 C06
+//@   requires writable(z) && rep(z) && rep(n) && rnd != nil
+//@   assigns z
+//@   allocates
+//@   ensures ret == z && rep(z) && val(z) >= 0 && (old(val(n)) > 0 ==> val(z) < old(val(n))) && (old(val(n)) <= 0 ==> val(z) == 0)
+//@ func (*BigInt).SetBits
+//@   layer bigint
+//@   props C16 C04 C06
+//@   requires writable(z) && rep(z)
+//@   assigns z
+//@   allocates
+//@   ensures ret == z && rep(z) && val(z) >= 0
 //@ func (*Decimal).Size
 //@   props C04
 //@   exported
